@@ -67,13 +67,14 @@ func propC08(c *Ctx) propInfo {
 	trav2 := map[string]bool{"liteapi": true, "tlb": true, "tl": true, "boc": true, "ton": true, "utils": true, "code": true}
 	c.panicFree(e1cfg{roots: apiRoots, pkgs: map[string]bool{"liteapi": true}, traverse: trav2, maxDepth: depth, exc: excC08, excP5: excC08P5})
 	c.errflow(excE2, "tlb", "tl", "code", "boc")
+	c.bufferSizing() // the bounds proofs of the bit-level readers/writers lean on 8*len(buf) >= cap
 	c.floor("E1.P2-bounds", 250)
 	c.floor("E1.P4-alloc", 9)
 	c.floor("E1.P5-recursion", 4)
 	c.floor("E1.P7-libpre", 15)
 	c.floor("E2.R-tolerated", 1)
 	return propInfo{
-		explanation: "Static structural clauses of C08 (DESIGN.md §4 C08): on every function of packages tlb, tl, liteclient, code reachable from the TL-B/TL decoding entry points (every UnmarshalTLB/UnmarshalTL method, tlb.Unmarshal, tl.Unmarshal, the request decoder, ADNL answer framing): no explicit panic, indices/slices proved in bounds or covered by a re-verified per-construct exception, no unchecked type assertion, data-sized allocations bounded, recursion bounded; error discipline of the decoders. Decides absence of these crash constructs, not time/memory proportionality of DAG unfolding nor nil dereference in general.",
+		explanation: "Static structural clauses of C08 (DESIGN.md §4 C08): on every function of packages tlb, tl, liteclient, code reachable from the TL-B/TL decoding entry points (every UnmarshalTLB/UnmarshalTL method, tlb.Unmarshal, tl.Unmarshal, the request decoder, ADNL answer framing): no explicit panic, indices/slices proved in bounds or covered by a re-verified per-construct exception, no unchecked type assertion, data-sized allocations bounded, recursion bounded; error discipline of the decoders. Decides absence of these crash constructs, not time/memory proportionality of DAG unfolding nor nil dereference in general. A pointer result used where its call's error may still be non-nil is nil-tested first (R-tolerated).",
 		assumptions: []string{"integer overflow of int/uint arithmetic on sizes is not modelled", "reflect misuse is not modelled", "nil dereference is not modelled"},
 	}
 }
